@@ -214,6 +214,15 @@ def main(argv=None):
             continue
         results.append(json.load(open(out)))
     wall = time.time() - t0
+    if os.environ.get("VERIF_COVER"):
+        merged: dict = {}
+        for r in results:
+            for f, ls in (r.pop("cover", None) or {}).items():
+                merged.setdefault(f, set()).update(ls)
+        os.makedirs(os.path.join(VERIF, "mutation"), exist_ok=True)
+        with open(os.path.join(VERIF, "mutation", f"cover_{prop}.json"), "w") as f:
+            json.dump({k: sorted(v) for k, v in sorted(merged.items())}, f)
+        print(f"COVER property={prop} files={len(merged)} lines={sum(len(v) for v in merged.values())}")
     return conclude(prop, args.tier, seed, mod_tiers, results, dead, wall, nshards, not args.no_evidence)
 
 
@@ -232,10 +241,39 @@ def load_check_meta(prop):
     return json.loads(out.stdout.strip().splitlines()[-1])
 
 
+def _start_line_coverage():
+    """VERIF_COVER=1: record which source lines of the repo's package the workload executes (sys.monitoring LINE events, each
+    location disabled after its first hit, so the cost is negligible).  Used by mutation_sweep.py to restrict mutation sites to code
+    the check really drives, and reported in the evidence as reach of the anchored files."""
+    cover: dict = {}
+    mon = getattr(sys, "monitoring", None)
+    if mon is None:
+        return cover
+    root = os.path.join(os.path.realpath(REPO), "snaxc") + os.sep
+    tool = mon.COVERAGE_ID
+    try:
+        mon.use_tool_id(tool, "verif-cover")
+    except ValueError:
+        return cover
+
+    def on_line(code, line):
+        fn = code.co_filename
+        if fn.startswith(root) or os.path.realpath(fn).startswith(root):
+            cover.setdefault(os.path.relpath(os.path.realpath(fn), os.path.realpath(REPO)), set()).add(line)
+        return mon.DISABLE
+
+    mon.register_callback(tool, mon.events.LINE, on_line)
+    mon.set_events(tool, mon.events.LINE)
+    return cover
+
+
 def worker(prop, tier, seed, shard, cases, out):
     sys.setrecursionlimit(10000)
+    cover = _start_line_coverage() if os.environ.get("VERIF_COVER") else None
     mod = importlib.import_module(f"vf.checks.{prop}")
     res = mod.run_shard(shard_seed(seed, prop, shard), shard, cases, tier)
+    if cover is not None:
+        res["cover"] = {f: sorted(ls) for f, ls in cover.items()}
     with open(out + ".tmp", "w") as f:
         json.dump(res, f, default=str)
     os.replace(out + ".tmp", out)
